@@ -269,6 +269,79 @@ def compare_outcomes(name, tau, tout, tcalls, lout, lcalls):
     return res
 
 
+HKL_FAMILY = ("sysabs", "sysabs_unique", "genhkl_base", "genhkl_all", "genhkl_unique")
+
+
+def compare_hkl(name, tmod, lmod):
+    """-> [(suffix, ok, message)] ; models of the two modules must coincide"""
+    from xfabsa import tables
+    from props import hklmodel as H
+    settings, _info = tables.extract_sglib()
+    out = []
+    if name in ("sysabs", "sysabs_unique"):
+        ta, la = H.AbsenceModel(tmod.rel), H.AbsenceModel(lmod.rel)
+        keys = sorted({(tuple(s.syscond), s.crystal_system, s.cell_choice) for s in settings if len(s.syscond) == 26})
+        box = [(h, k, l) for h in range(-6, 7) for k in range(-6, 7) for l in range(-6, 7)]
+        bad = None
+        for syscond, cs, cc in keys:
+            if name == "sysabs":
+                a, b = ta.residual(syscond, cs, cc), la.residual(syscond, cs, cc)
+            else:
+                a, b = ta.residual_unique(syscond), la.residual_unique(syscond)
+            if a == b:
+                continue
+            fa, fb = H.absent_fn(a), H.absent_fn(b)
+            for h in box:
+                if fa(h) != fb(h):
+                    bad = (h, [i for i, c in enumerate(syscond) if c], cs, cc)
+                    break
+            if bad:
+                break
+        out.append(("result", bad is None,
+                    "the two modules decide differently whether %s is absent (active condition slots %s, %s, %s)"
+                    % (bad or ("", "", "", ""))[:4] if bad else "same decision on |h|,|k|,|l| <= 6 for all %d condition vectors" % len(keys)))
+        return out
+    if name == "genhkl_base":
+        ts, ls = tables.extract_segm(tmod.rel), tables.extract_segm(lmod.rel)
+        combos = sorted({(s.Laue, s.cell_choice, s.crystal_system) for s in settings})
+        diff = [c for c in combos if ts.table_key(*c) != ls.table_key(*c)]
+        out.append(("cones", not diff, "different cone tables for (Laue, cell choice, crystal system) %s" % (diff[:2],)))
+        from props.c05 import visit_rules
+        vt = visit_rules(core.Ctx("C14", "quick"), tmod, "tools")
+        vl = visit_rules(core.Ctx("C14", "quick"), lmod, "laue")
+        out.append(("calls", vt == vl, "the reflection-condition test is consulted differently: tools passes crystal_system=%s, cell_choice=%s ; "
+                    "laue passes crystal_system=%s, cell_choice=%s" % (vt["crystal_system"], vt["cell_choice"], vl["crystal_system"], vl["cell_choice"])))
+        from props.hklwalk import analyse_tests, analyse_tail, analyse_steps
+        from props.c06 import analyse_insync
+        verdicts = []
+        for mod_, short in ((tmod, "tools"), (lmod, "laue")):
+            c_ = core.Ctx("C14", "quick")
+            shell, svars = analyse_tests(c_, mod_, short)
+            analyse_tail(c_, mod_, short)
+            analyse_steps(c_, mod_, short)
+            sync = analyse_insync(c_, mod_, mod_.func("genhkl_base"), short, sintl_var=sorted(svars)[0])
+            verdicts.append((sorted(f["key"].split(":")[1] + ":" + f["key"].rsplit(":", 1)[-1].replace(short, "") for f in c_.fails), sorted(sync.values())))
+        out.append(("result", verdicts[0] == verdicts[1] and not verdicts[0][0],
+                    "the walks differ or do not satisfy the rules of C05/C06 they are compared through: tools %s ; laue %s" % (verdicts[0], verdicts[1])))
+        return out
+    if name in ("genhkl_all", "genhkl_unique"):
+        from props.hklwrap import Wrap
+        from xfabsa.objeval import okey
+        res = []
+        for mod_ in (tmod, lmod):
+            per = []
+            for kw in (dict(sgname="P21/c"), dict(sgname="P21/c", output_stl=True), dict(sgno=Rat.const(14), cell_choice="rhombohedral")):
+                e = Wrap(mod_, family_subset=[2, 0, 3])
+                out_ = e.call_function(name, [sym_array("unit_cell", (6,)), Rat.atom("sintlmin"), Rat.atom("sintlmax")], dict(kw))
+                per.append((okey(out_) if not isinstance(out_, Arr) else out_.key(),
+                            [sorted((k_, okey(v_)) for k_, v_ in c_.items()) for c_ in e.base_calls],
+                            [[okey(x_) for x_ in a_] + sorted((k_, okey(v_)) for k_, v_ in kw_.items()) for a_, kw_ in e.sg_calls]))
+            res.append(per)
+        out.append(("result", res[0] == res[1], "the two modules return different tables / make different look-ups on the model group"))
+        return out
+    raise AnalysisError("no model comparison for %s" % name)
+
+
 def run(ctx):
     ctx.rule("names", "both modules define the same 41 top-level functions")
     ctx.rule("identical", "normalised trees identical (same operations in the same order)")
@@ -349,6 +422,15 @@ def run(ctx):
                 e3err = str(e)
         else:
             e3err = "no signature / not straight-line"
+        # the reflection generators: compared through the models C05 / C06 extract from each module
+        if name in HKL_FAMILY:
+            try:
+                for suffix, ok, msg in compare_hkl(name, tmod, lmod):
+                    ctx.check(ok, "C14:semantic:%s:%s" % (name, suffix), msg, where)
+                stats["semantic"] += 1
+                continue
+            except AnalysisError as e:
+                e3err = str(e)
         # not evaluable by E3: classify the structural difference
         if d.tokens and not d.shapes:
             ctx.fail("C14:identical:%s" % name,
